@@ -14,6 +14,8 @@ import (
 	jump "github.com/lithammer/go-jump-consistent-hash"
 
 	"github.com/lindb/lindb/aggregation/function"
+	"github.com/lindb/lindb/flow"
+	"github.com/lindb/lindb/models"
 	"github.com/lindb/lindb/pkg/timeutil"
 	protoCommonV1 "github.com/lindb/lindb/proto/gen/v1/common"
 	querycontext "github.com/lindb/lindb/query/context"
@@ -101,6 +103,10 @@ func runCase(c *core.Ctx, i int) {
 	}
 	if i%19 == 3 {
 		skewCase(c, rng)
+		return
+	}
+	if i%37 == 5 {
+		planShapeCase(c, rng)
 		return
 	}
 	switch x := rng.Intn(100); {
@@ -236,6 +242,9 @@ func (q *QueryDef) resultOp(id int) string {
 	all := 0
 	if q.AllFields {
 		all = 1
+	}
+	if q.Having != nil {
+		return fmt.Sprintf("result %d all=%d limit=%d sel=%s ord=%s hav=%d:%d", id, all, q.Limit, joinOrDash(sel), joinOrDash(ord), q.Having.Op, q.Having.Thr)
 	}
 	return fmt.Sprintf("result %d all=%d limit=%d sel=%s ord=%s", id, all, q.Limit, joinOrDash(sel), joinOrDash(ord))
 }
@@ -534,7 +543,60 @@ func runLayout(c *core.Ctx, w *World, q *QueryDef, l *Layout, emit bool, ctxBase
 	}
 	op(q.resultOp(ctxBase), res.line(q, full))
 	checkTopN(c, q, res, full)
+	if q.Having != nil {
+		checkHaving(c, w, q, root, res, func() *Result {
+			qq := *q
+			qq.Having = nil
+			plain, err := NewRoot(w, &qq, rootFrom)
+			if err != nil {
+				panic(err)
+			}
+			for _, k := range perm {
+				plain.Ctx.HandleResponse(rootInputs[k], rootFrom[k])
+			}
+			return plain.Finish()
+		})
+	}
 	return runOut{res: res, full: full}
+}
+
+// checkHaving: HAVING evaluated per group independently on the unfiltered answer of the same
+// deliveries must be what the root answers — in every rendering (makeResultSet walks the groups in
+// Go map order: the same context is rendered several times to sample it).
+func checkHaving(c *core.Ctx, w *World, q *QueryDef, root *Root, res *Result, unfiltered func() *Result) {
+	if res.Err != "" {
+		return
+	}
+	plain := unfiltered()
+	want := &Result{Groups: map[string]map[string][]string{}}
+	for t, fm := range plain.Groups {
+		out := map[string][]string{}
+		for name, pts := range fm {
+			var keep []string
+			for _, p := range pts {
+				var slot int
+				var v float64
+				fmt.Sscanf(p, "%d=%g", &slot, &v)
+				if q.Having.holds(v) {
+					keep = append(keep, p)
+				}
+			}
+			out[name] = keep
+		}
+		want.Groups[t] = out
+	}
+	for k := 0; k < 12; k++ {
+		got := res
+		if k > 0 {
+			got = root.Finish()
+		}
+		if got.Err != "" || got.answerLine() != want.answerLine() {
+			c.Fail("having-slot-leaks-between-groups", fmt.Sprintf("having %s op%d %d/8, rendering %d: root answers %q (%s), HAVING per group on the unfiltered answer gives %q",
+				q.Having.Field, q.Having.Op, q.Having.Thr, k, clip(got.answerLine()), got.Err, clip(want.answerLine())))
+			return
+		}
+	}
+	c.Branch("having")
 }
 
 // checkTopN: with ORDER BY and a limit below the number of groups, and no two groups tying on
@@ -678,6 +740,22 @@ func genQuery(rng *rand.Rand, w *World, multiFunc bool) *QueryDef {
 			if rng.Intn(2) == 0 {
 				q.GroupBy = append(q.GroupBy, k)
 			}
+		}
+	}
+	if len(q.GroupBy) > 0 && !multiFunc && rng.Intn(5) == 0 {
+		// HAVING on the single selected field, threshold = one of the written values (so that groups
+		// straddle it)
+		f := w.Fields[rng.Intn(len(w.Fields))]
+		var vals []int64
+		for _, p := range w.Points {
+			if w.Fields[p.Field].Name == f.Name {
+				vals = append(vals, p.Val)
+			}
+		}
+		if len(vals) > 0 {
+			q.Selects = []SelectDef{{Field: f.Name, Func: function.Unknown}}
+			q.Having = &HavingDef{Field: f.Name, Op: 1 + rng.Intn(4), Thr: vals[rng.Intn(len(vals))]}
+			return q
 		}
 	}
 	if len(q.GroupBy) > 0 && rng.Intn(3) == 0 {
@@ -1268,4 +1346,73 @@ func clip(s string) string {
 		return s[:300] + "..."
 	}
 	return s
+}
+
+func liveBrokers(n int) []models.StatelessNode {
+	var out []models.StatelessNode
+	for i := 0; i < n; i++ {
+		out = append(out, models.StatelessNode{HostIP: fmt.Sprintf("1.1.1.%d", i+1), GRPCPort: 9000})
+	}
+	return out
+}
+
+// checkPlanShape: the real flow.BuildPhysicalPlan over `live` brokers for `n` compute nodes must
+// give min(n, live) targets, all distinct live nodes, exactly ONE of which executes (is not
+// receive-only) — whatever its (time-seeded) shuffle draws.
+func checkPlanShape(c *core.Ctx, live, n int) (targets, execs int, distinct bool) {
+	nodes := liveBrokers(live)
+	isLive := map[string]bool{}
+	for _, nd := range nodes {
+		isLive[nd.Indicator()] = true
+	}
+	plan := flow.BuildPhysicalPlan(database, append([]models.StatelessNode(nil), nodes...), n)
+	seen := map[string]bool{}
+	distinct = true
+	for _, t := range plan.Targets {
+		if seen[t.Indicator] || !isLive[t.Indicator] {
+			distinct = false
+		}
+		seen[t.Indicator] = true
+		if !t.ReceiveOnly {
+			execs++
+		}
+	}
+	targets = len(plan.Targets)
+	want := n
+	if live < n {
+		want = live
+	}
+	switch {
+	case execs == 0 && targets > 0:
+		c.Fail("plan-without-executor", fmt.Sprintf("%d live brokers, %d compute nodes: all %d targets of the plan are receive-only, nobody builds the leaf plan", live, n, targets))
+	case execs > 1:
+		c.Fail("plan-with-several-executors", fmt.Sprintf("%d live brokers, %d compute nodes: %d targets execute", live, n, execs))
+	}
+	if !distinct || targets != want {
+		c.Fail("plan-targets-not-distinct-live-nodes", fmt.Sprintf("%d live brokers, %d compute nodes: %d targets (want %d), distinct live nodes: %v", live, n, targets, want, distinct))
+	}
+	return
+}
+
+// planShapeCase: live brokers 1..12 x compute nodes 1..5, several draws each.
+func planShapeCase(c *core.Ctx, rng *rand.Rand) {
+	for live := 1; live <= 12; live++ {
+		for n := 1; n <= 5; n++ {
+			var t, e int
+			var d bool
+			for draw := 0; draw < 6; draw++ {
+				t, e, d = checkPlanShape(c, live, n)
+				if c.Fails > 0 && (e != 1 || !d) {
+					break
+				}
+			}
+			b := 0
+			if d {
+				b = 1
+			}
+			c.Op(fmt.Sprintf("plan-shape %d %d", live, n), fmt.Sprintf("targets=%d executors=%d distinct=%d", t, e, b))
+		}
+	}
+	c.Branch("plan-shape")
+	c.NonTrivial()
 }
